@@ -362,6 +362,79 @@ def c09_stage(ctx):
     return st.done()
 
 
+def c09_cli_stage(ctx):
+    """Command-line operations that create directories: every directory the command created must be durable in its parent
+    before the command reports success."""
+    st = Stage('C09', 'command-line', 'the built binary runs `init` (and `add`) under strace -ff -y on configurations whose base directory exists and is empty, '
+               'does not exist yet (missing leaf, missing leaf and parent) or lacks the work area; if the command exits 0 every mkdir it made must be followed, before it '
+               'exits, by a successful fsync of the directory that holds the new entry (otherwise the acknowledged store, or a directory above it, can be gone after a power '
+               'loss), and the hash file must have been renamed into a directory that was fsynced afterwards. Non-trivial: every acknowledged command that created a '
+               'directory or a hash file; distinct by (scenario, created path)', ctx)
+    agent = ctx.build_agent()
+    scen = [('init-existing-empty', 0), ('init-missing-leaf', 1), ('init-missing-two-levels', 2), ('add-without-tmp', 0)]
+    for name, missing in scen:
+        if getattr(ctx, 'only_case', None) and ctx.only_case != name:
+            continue
+        try:
+            d = os.path.join(st.work, name)
+            shutil.rmtree(d, ignore_errors=True)
+            base = os.path.join(d, 'var', 'lib', 'store')
+            os.makedirs(os.path.join(d, 'var') if missing == 2 else (os.path.join(d, 'var', 'lib') if missing == 1 else base))
+            cfg = os.path.join(d, 'store.yml')
+            with open(cfg, 'w') as f:
+                f.write('basedir: "%s"\ndefault: 1\nparams:\n  - id: 1\n    argon2id:\n      time: 1\n      memory: 8\n      threads: 1\n      length: 32\n' % base)
+            cmds = [[agent, '--store', cfg, 'init', 'root', 'Root-Quartz-Zebra-1']]
+            if name == 'add-without-tmp':
+                subprocess.run(cmds[0], env=st.env(), stdout=subprocess.PIPE, stderr=subprocess.STDOUT)
+                shutil.rmtree(os.path.join(base, '.tmp'), ignore_errors=True)
+                cmds = [[agent, '--store', cfg, 'add', 'alice', 'Alice-Quartz-Zebra-1']]
+            logp = os.path.join(d, 'trace-cli')
+            rc, out = sc.strace_run(cmds[0], logp, env=st.env(), strsize=256)
+            st.count('cli_commands')
+            st.count('cli_exit:%s:%s' % (name, rc))
+            if rc != 0:
+                st.case(name + '/refused', True)
+                continue      # nothing acknowledged
+            events = []       # (thread, idx, kind, path)
+            for fn in sorted(os.listdir(d)):
+                if not fn.startswith('trace-cli.'):
+                    continue
+                sl, _ = sc.parse_thread_log(os.path.join(d, fn))
+                for s in sl:
+                    if s.unfinished or s.ret is None or s.ret < 0:
+                        continue
+                    if s.name in ('mkdir', 'mkdirat'):
+                        events.append((fn, s.idx, 'mkdir', os.path.normpath(sc.strings_of(s.args)[0].decode('utf-8', 'replace'))))
+                    elif s.name in ('rename', 'renameat', 'renameat2'):
+                        events.append((fn, s.idx, 'rename', os.path.normpath(sc.strings_of(s.args)[1].decode('utf-8', 'replace'))))
+                    elif s.name in ('fsync', 'fdatasync') and s.ret == 0:
+                        fds = sc.fds_of(s.args)
+                        if fds:
+                            events.append((fn, s.idx, 'fsync', os.path.normpath(fds[0][1])))
+            # the command line is single-threaded for file-system work in practice, but goroutines may migrate: use per-thread order
+            # when both events are in one thread, and "any later fsync in any thread" otherwise (threads of one process share the order
+            # only through the program; the obligation is existence of the fsync at all)
+            for (fn, idx, kind, path) in events:
+                if kind == 'fsync' or not path.startswith(d):
+                    continue
+                if kind == 'rename' and os.path.dirname(path).endswith('.tmp'):
+                    continue
+                parent = os.path.dirname(path)
+                ok = any(k == 'fsync' and p == parent and (f2 != fn or i2 > idx) for (f2, i2, k, p) in events)
+                st.case('%s/%s/%s' % (name, kind, os.path.relpath(path, d)), True)
+                st.count('cli_entry_obligations')
+                if not ok:
+                    st.violate('c09:command-line:%s-not-durable-in-its-parent:%s' % ('directory' if kind == 'mkdir' else 'hash-file', name),
+                               '`%s` exited 0 but the entry %s it created was never followed by an fsync of %s: after a power loss the acknowledged store (or the whole directory) can be gone'
+                               % (' '.join(cmds[0][3:5]), os.path.relpath(path, d), os.path.relpath(parent, d)), name,
+                               {'scenario': name, 'created': os.path.relpath(path, d), 'events': [(k, os.path.relpath(p, d)) for (_, _, k, p) in events if p.startswith(d)][:40]})
+            shutil.rmtree(d, ignore_errors=True)
+        except Exception:
+            import traceback
+            st.r.setdefault('harness_error', 'cli %s: %s' % (name, traceback.format_exc()[-1500:]))
+    return st.done()
+
+
 def c09_concurrent_stage(ctx):
     st = Stage('C09', 'concurrent-durability', 'rounds of 4-8 mutating operations (add, update, set-admin, remove; one user each) started at the same moment '
                'on separate OS threads of one process that share the store directory (one shared handle or one per thread), traced with strace -ff -ttt -T while the return '
